@@ -12,7 +12,7 @@ string literals do not reduce in the Lean kernel).
 
 Tolerant of: whitespace / line breaks / trailing commas / comments between the elements, `pub`/`pub(crate)`, `const`
 instead of `static`, `&'static str`, `_` or a number as array length, a slice type `&[&str]`, string continuation
-lines (`\\` + newline), the usual escapes, and the item living in any `.rs` file below `src/`.
+lines (`\\` + newline), `concat!(..)` of string literals, the usual escapes, and the item living in any `.rs` file below `src/`.
 NOT tolerated (reported as a broken tie, never silently): the item renamed, re-encoded (not an array of string
 literals), or defined more than once.
 
@@ -139,6 +139,27 @@ def find_item(files, name):
         if c == '"' or (c == "r" and src[i + 1] in '"#'):
             v, i = _string_literal(src, i)
             items.append(v)
+            continue
+        mc = re.match(r"concat\s*!\s*[\(\[\{]", src[i:])
+        if mc:                                   # concat!("..", "..", ..): the concatenation of its string literals
+            i += len(mc.group(0))
+            parts = []
+            while True:
+                i = _skip_ws_comments(src, i)
+                if i >= len(src):
+                    raise BrokenTie("%s: unterminated concat!" % name)
+                if src[i] in ")]}":
+                    i += 1
+                    break
+                if src[i] == ",":
+                    i += 1
+                    continue
+                if src[i] == '"' or (src[i] == "r" and src[i + 1] in '"#'):
+                    v, i = _string_literal(src, i)
+                    parts.append(v)
+                    continue
+                raise BrokenTie("%s: element %d: concat! of something that is not a string literal (found %r)" % (name, len(items), src[i:i + 20]))
+            items.append("".join(parts))
             continue
         raise BrokenTie("%s: element %d is not a string literal (found %r) — the table was re-encoded" % (name, len(items), src[i:i + 20]))
     n = m.group("n")
